@@ -27,6 +27,7 @@ fn base_pos() -> impl Strategy<Value = (f64, f64)> {
 pub fn me_any() -> BoxedStrategy<u64> {
     prop_oneof![
         3 => (1u32..=4, 0u32..8, gen::chars8()).prop_map(|(tc, ca, ch)| bits::me_ident(tc, ca, ch)),
+        1 => (1u32..=4, 0u32..8, gen::chars8_pool()).prop_map(|(tc, ca, ch)| bits::me_ident(tc, ca, ch)),
         2 => (5u32..=8, 0u32..128, 0u32..2, 0u32..128, any::<bool>(), base_pos()).prop_map(|(tc, mov, ts, trk, odd, (la, lo))| {
             let (yz, xz, _, _) = cpr_encode(la, lo, odd);
             bits::me_surfpos(tc, mov, ts, trk, 0, odd as u32, yz, xz)
@@ -44,6 +45,9 @@ pub fn me_any() -> BoxedStrategy<u64> {
             m.0
         }),
         1 => (prop_oneof![Just(0u32), Just(23u32), Just(24u32), Just(27u32), Just(28u32), Just(29u32), Just(30u32)], gen::fill64()).prop_map(|(tc, fill)| bits::me_raw(tc, fill)),
+        // every field of the message zero (or one) under each type code: 'empty' squitters are legal and carry meaning
+        // (blank callsign, no movement information, CPR field 0, vertical rate not available ...)
+        1 => (0u32..32, prop_oneof![3 => Just(0u64), 1 => Just(u64::MAX)]).prop_map(|(tc, fill)| bits::me_raw(tc, fill)),
     ]
     .boxed()
 }
